@@ -477,9 +477,20 @@ impl<'a> Model<'a> {
             | Cell::BooleanCell { .. }
             | Cell::NumberCell { .. }
             | Cell::ErrorCell { .. }
-            | Cell::SharedString { .. }
-            | Cell::CellFormula { .. } => {
-                // This is a regular cell, we can just move it.
+            | Cell::SharedString { .. } => {
+                // A plain value: move the cell itself (value and style). Re-typing its display
+                // text would re-interpret it: quote-prefixed text like '123 would come back as a
+                // number, long numbers would lose digits, URL-like text would be linked again
+                // and an empty cell would remove the link stored under the target position.
+                let cell = source_cell.clone();
+                let worksheet = self.workbook.worksheet_mut(sheet)?;
+                worksheet.remove_cell(source_row, source_column)?;
+                worksheet.update_cell(target_row, target_column, cell)?;
+                return Ok(());
+            }
+            Cell::CellFormula { .. } => {
+                // The formula is re-entered at the target so that its references keep
+                // pointing at the same cells.
             }
             Cell::SpillCell { .. } => {
                 // This the spill of an array formula. Because dynamic arrays spills have been deleted
